@@ -387,6 +387,37 @@ CHECKS = {
         "for bad Content-Length and non-Latin-1 version text) are reported "
         "until fixed",
         "DESIGN.md 4-C17", "listenerhttp"),
+    "C01": (
+        "TLA+ class-alphabet transcription of pywbem's XML escaping (entity and "
+        "CDATA mode, attribute writer) and of an XML 1.0 reader, model-checked "
+        "with TLC for round trip at embedding depth 0..3; TLA+ requirement "
+        "machine for object round trips (DSP0201 defaults, second round) with a "
+        "builder machine for abstract object trees and a code-shaped wire "
+        "model; abstract strings / trees from TLC are concretised, sent through "
+        "the real encoder and parser twice and every observation is judged by "
+        "TLC",
+        "TLC checks, for every string over a 13-class alphabet up to 4 (thorough "
+        "5) symbols, both escaping modes, and up to 3 (4) symbols below 1..3 "
+        "embedded-object levels, that an XML 1.0 reader returns what the "
+        "transcribed encoder wrote, that names survive as attribute values, that "
+        "the CDATA writer never fails and that a second round is byte-identical "
+        "- for the repaired escaping; the pinned tree's escaping must fail (CR) "
+        "and passes without CR. On object level TLC checks for every element "
+        "kind x type x array shape x attribute that the requirement accepts "
+        "the DSP0201-defaulted tree, rejects every single-field change, and "
+        "that the code-shaped wire meets it (4 pinned-tree variants must "
+        "fail). TLC-enumerated / simulated strings and TLC-simulated, seeded "
+        "random and systematic (15 types x shapes x element kinds, boundary "
+        "numbers, INF/NaN) trees with names in random case are run through the "
+        "real tocimxmlstr(), TupleParser and (PARAMVALUE) InvokeMethod twice; "
+        "TLC judges each event clause by clause and measures drift of the "
+        "real encoder text / parsed elements from the transcription.",
+        "characters judged per class (several representatives each; exact "
+        "tokens compared in addition); no characters outside XML 1.0 Char "
+        "(C03); names with TAB/LF/CR excluded (not CIM names; attribute "
+        "normalisation); trees > 4 elements only simulated / random; real32 at "
+        "32-bit width, NaN by class; names case-insensitive",
+        "DESIGN.md 4-C01", "cimwire"),
     "C10": (
         "TLA+ reference keyed map with set-valued status codes (RepoCore); "
         "code-shaped validation-order + dict/heap machine refinement in TLC; "
